@@ -736,7 +736,7 @@ def elem_facts(I, xs, elem):
     facts = []
     key = xs.get_id() if hasattr(xs, "get_id") else None
     table = I.ctx.__dict__.setdefault("elem_shapes", {})
-    ent = table.get(z3.simplify(xs).get_id()) or table.get(key)
+    ent = table.get(z3.simplify(xs).get_id()) or table.get(key) or V.elem_shape_of(I.ctx, xs)
     if ent is not None:
         facts.append(ent(elem))
     facts.append(V.vcontains(xs, elem))
